@@ -247,7 +247,24 @@ pub fn base_plan(inst: Inst, mode: &str, rng: &mut Rng, reports: usize) -> PlanA
     }
 }
 
-fn gen_plan(id: &str, seed: u64, _run: u64, tier: Tier) -> PlanA {
+fn gen_plan(id: &str, seed: u64, run: u64, tier: Tier) -> PlanA {
+    let mut p = gen_plan_inner(id, seed, run, tier);
+    // the tampering / Byzantine / skew / aggregation configurations also run in processes that serve other tasks:
+    // a fifth of them get foreign work interleaved (own generator stream, so the rest of the plan is unchanged)
+    if p.foreign.is_empty() && p.mode != "hh" {
+        let mut r2 = Rng::new(seed ^ 0xF0E1_D2C3_B4A5_9687);
+        if r2.chance(1, 5) {
+            let events = (p.reports.len() * p.aps.len().max(1) * (3 * p.inst.n as usize) + 4) as u32;
+            for _ in 0..1 + r2.below(2) {
+                let f = gen_foreign(&mut r2, &p, events);
+                p.foreign.push(f);
+            }
+        }
+    }
+    p
+}
+
+fn gen_plan_inner(id: &str, seed: u64, _run: u64, tier: Tier) -> PlanA {
     let mut rng = Rng::new(seed);
     let rng = &mut rng;
     match id {
